@@ -53,41 +53,41 @@ type Interp struct {
 	Trace   []Decision
 	Pending [][]int // prefixes to explore later
 
-	globals   map[*ssa.Global]*Cell
-	steps     int
-	Budget    int
-	stack     []*ssa.Function
-	varSeq    map[string]int
+	globals map[*ssa.Global]*Cell
+	steps   int
+	Budget  int
+	stack   []*ssa.Function
+	varSeq  map[string]int
 
-	Events      []Event
-	Draws       []*Draw
-	lazyN       int
-	Cfg         HarnessCfg
-	spec        DocSpec
-	underTest   int  // >0 while executing code of the library (not harness)
-	monitorOn   bool // shared-write monitor active
-	parseDepth  int
-	Stats       *RunStats
-	FuncsSeen   map[string]bool
-	StubsUsed   map[string]bool
-	Assumptions map[string]bool
-	assertsHit  int
-	magicInts   map[string]*Term
-	noteList    []string
-	loopCounts  map[*ssa.BasicBlock]int
-	maxAlloc    int
-	tags        map[string]string
-	Deadline    time.Time
+	Events       []Event
+	Draws        []*Draw
+	lazyN        int
+	Cfg          HarnessCfg
+	spec         DocSpec
+	underTest    int  // >0 while executing code of the library (not harness)
+	monitorOn    bool // shared-write monitor active
+	parseDepth   int
+	Stats        *RunStats
+	FuncsSeen    map[string]bool
+	StubsUsed    map[string]bool
+	Assumptions  map[string]bool
+	assertsHit   int
+	magicInts    map[string]*Term
+	noteList     []string
+	loopCounts   map[*ssa.BasicBlock]int
+	maxAlloc     int
+	tags         map[string]string
+	Deadline     time.Time
 	MaxDecisions int
-	refine      map[string][2]*big.Int // path-local interval refinements by term key
-	numLeaves   []*Term                // integer-valued symbolic leaves of documents
-	tok         *tokenMode
-	Cross       *CrossCheck
-	onceDone    map[*StructV]bool
-	sync        *syncState
-	dom         map[string]*smallDom // finite domains of small-range variables
-	entangled   map[string]bool      // variables that occur in multi-variable conjuncts
-	varsMemo    map[string][]string
+	refine       map[string][2]*big.Int // path-local interval refinements by term key
+	numLeaves    []*Term                // integer-valued symbolic leaves of documents
+	tok          *tokenMode
+	Cross        *CrossCheck
+	onceDone     map[*StructV]bool
+	sync         *syncState
+	dom          map[string]*smallDom // finite domains of small-range variables
+	entangled    map[string]bool      // variables that occur in multi-variable conjuncts
+	varsMemo     map[string][]string
 }
 
 // smallDom is the set of values a small-range integer variable can still take
